@@ -238,7 +238,8 @@ def scn_value(d: Draw, prof: dict, *, n_calls: int = 2, config: float = 0.15) ->
         nodes = []
         top_calls = [i for i, s in enumerate(dg["stmts"]) if s["k"] == "call"]
         for idx in d.sample(top_calls, d.int(0, min(2, len(top_calls)))):
-            nodes.append([["id", idx], {"priority": d.int(-3, 6), "is_sequential": d.bool(0.4)}])
+            nodes.append([["id", idx], d.pick([{"priority": d.int(-3, 6), "is_sequential": d.bool(0.4)}, {"priority": d.int(-3, 6)},
+                                               {"is_sequential": d.bool(0.5)}])])
         if nodes:
             conf["nodes"] = nodes
         ops.append(dict(op="config", inst="E:main", cfg=conf, how=d.pick(["dict", "json", "yaml"])))
@@ -494,7 +495,10 @@ reg(Prop("C11", g_c11, {"count_extra": "C11.a", "count_missing": "C11.c", "args"
 # ----------------------------------------------------------------------------- cache / compose / leak family
 P_C18 = gen.profile(**{**gen.GRAPH, "p_setup": 0.1, "n_stmts": (2, 9), "p_flag": 0.15, "p_tag": 0.0, "n_params": (0, 3),
                        "ret_types": [("int", 5), ("none", 1)]})
-P_C19 = gen.profile(**{**gen.GRAPH, "p_setup": 0.1, "n_stmts": (2, 10), "p_flag": 0.15, "p_default": 0.5, "n_params": (0, 3), "p_tag": 0.2})
+P_C19 = gen.profile(**{**gen.GRAPH, "p_setup": 0.1, "n_stmts": (2, 10), "p_flag": 0.2, "p_default": 0.5, "n_params": (0, 3), "p_tag": 0.2,
+                       "p_index": 0.6, "p_kwarg": 0.3, "ret_types": [("int", 5), ("tuple2", 3), ("dict", 2), ("list3", 1), ("none", 1)]})
+INPUT_VALUES = {"tuple2": ["(5, True)", "(0, False)", "(31, False)"], "dict": ["{'a': 3, 'b': False}", "{'a': 0, 'b': True}"],
+                "list3": ["[1, 2, True]", "[9, 0, False]"], "none": ["None", "4"]}
 P_C15 = gen.profile(**{**gen.SCHED, "p_setup": 0.0, "n_stmts": (2, 8), "p_flag": 0.15, "n_params": (1, 3), "p_default": 0.5,
                        "prio": (-2, 5), "p_prio": 0.7, "p_tag": 0.15})
 
@@ -565,8 +569,14 @@ def g_c19(d: Draw) -> dict:
         name = f"cmp{j}"
         ops.append(dict(op="compose", inst="E:main", inputs=ins, outputs=[alias_for(d, spec, "main", n) for n in outs], single=single,
                         **{"as": name}, is_async=d.pick([None, None, True, False]), mc=d.pick([None, None, 2, 4])))
-        n_in = len(in_nodes)
-        ops.append(dict(op="call", inst=name, args=[str(d.int(1, 60)) for _ in range(n_in)]))
+        vals = []
+        for n in in_nodes:
+            rt = "int"
+            if n[0] == "s" and dg["stmts"][n[1]]["k"] == "call":
+                rt = spec["funcs"][dg["stmts"][n[1]]["fn"]]["ret"]
+            # the supplied value has the shape of what the node would have produced (its consumers may index it)
+            vals.append(d.pick(INPUT_VALUES[rt]) if rt in INPUT_VALUES else str(d.int(1, 60)))
+        ops.append(dict(op="call", inst=name, args=vals))
     ops.append(dict(op="call", inst="E:main", args=draw_args(d, dg, 0.3)))
     ops.append(dict(op="snapshot", inst="E:main"))
     return base_scn(spec, ops)
